@@ -221,6 +221,16 @@ func (d *Dumper) obj(v reflect.Value, path string, parent interface{}) map[strin
 			}
 			out["BaseIdents"] = ids
 			delete(out, "Base")
+			// what every writer does with an identityref value: look its name up among the identities the leaf accepts
+			// (a name that is not there makes the search visit them all)
+			func() {
+				defer func() {
+					if r := recover(); r != nil {
+						d.Panics = append(d.Panics, fmt.Sprintf("%s.FindIdentity(): %v", path, r))
+					}
+				}()
+				meta.FindIdentity(x.IdentityBases(), "\x00no such identity")
+			}()
 		}
 	case *meta.List:
 		var keys []string
